@@ -35,6 +35,11 @@ def alphabet(tier):
     c("create-noname", "CreateStateMachine", {"roleArn": R1, "definition": S1}, {"InvalidName", "MissingRequiredParameter", "ValidationException"})
     c("create-name80", "CreateStateMachine", {"name": "n" * 80, "roleArn": R1, "definition": S1})
     c("create-badrole", "CreateStateMachine", {"name": "mc", "roleArn": "x", "definition": S1}, {"InvalidArn"})
+    # role ARNs that are almost right: no account, letters in the account, another service, no role name, a user instead of a role
+    for tag, ra_ in (("noaccount", "arn:aws:iam:::role/r"), ("alphaaccount", "arn:aws:iam::abc:role/r"), ("service", "arn:aws:s3::0123456789:role/r"),
+                     ("noname", "arn:aws:iam::0123456789:role/"), ("user", "arn:aws:iam::0123456789:user/r"), ("region", "arn:aws:iam:local:0123456789:role/r")):
+        c("create-badrole-" + tag, "CreateStateMachine", {"name": "mc", "roleArn": ra_, "definition": S1}, {"InvalidArn"})
+    c("update-ma-badrole-noaccount", "UpdateStateMachine", {"stateMachineArn": sm("ma"), "roleArn": "arn:aws:iam:::role/r"}, {"InvalidArn"})
     c("create-norole", "CreateStateMachine", {"name": "mc", "definition": S1}, {"InvalidArn", "MissingRequiredParameter", "ValidationException"})
     c("create-introle", "CreateStateMachine", {"name": "mc", "roleArn": 7, "definition": S1}, VALIDATION)
     c("create-badtype", "CreateStateMachine", {"name": "mc", "roleArn": R1, "definition": S1, "type": "BOGUS"}, {"StateMachineTypeNotSupported", "ValidationException"})
